@@ -3,6 +3,7 @@ ReferenceResolver.resolve_one_step and in the driver loop of parse_tree_to_objgr
 that renaming locals or extracting helpers (inlined first, sa/inline.py) does not disturb the rules."""
 import ast
 from sa.util import *
+from sa import sem
 M = "textx/model.py"
 class Roles: pass
 def roles(root):
@@ -42,7 +43,11 @@ def driver(root):
     drv = find_i(root, M, "parse_tree_to_objgraph")
     wl = next((n for n in ast.walk(drv) if isinstance(n, ast.While) and any(callee_name(c) == "resolve_one_step" for c in calls(n))), None)
     if wl is None: raise AnalysisError("resolution driver loop not found")
-    un = next((s for s in ast.walk(wl) if isinstance(s, ast.Assign) and isinstance(s.value, ast.Call) and callee_name(s.value) == "resolve_one_step" and isinstance(s.targets[0], (ast.Tuple, ast.List)) and len(s.targets[0].elts) == 2), None)
+    fi_ = sem.info(drv)
+    def _is_step(v, at):
+        x = fi_.expand(v, at=at)
+        return isinstance(x, ast.Call) and callee_name(x) == "resolve_one_step"
+    un = next((s for s in ast.walk(wl) if isinstance(s, ast.Assign) and isinstance(s.targets[0], (ast.Tuple, ast.List)) and len(s.targets[0].elts) == 2 and _is_step(s.value, s)), None)
     if un is None: raise AnalysisError("driver loop does not unpack (count, delayed) from resolve_one_step")
     a, b = [ast.unparse(e) for e in un.targets[0].elts]
     rc = uc = None
@@ -63,3 +68,37 @@ def unresolved_raises(root):
     rs = [r for r in ast.walk(after) if isinstance(r, ast.Raise) and r.exc is not None]
     if not rs: raise AnalysisError("the failure branch after the resolution loop raises nothing")
     return drv, after, rs
+
+def continue_atoms(drv, wl):
+    """canonical conjuncts that must hold for the driver loop to go on: from the while test and from the negated guards of
+    its breaks.  Counter comparisons are normalised to `x>0` (x <= 0, x == 0, not x  ->  not x>0)."""
+    fi_ = sem.info(drv)
+    def nnf(e, neg=False):
+        if isinstance(e, ast.UnaryOp) and isinstance(e.op, ast.Not): return nnf(e.operand, not neg)
+        if isinstance(e, ast.BoolOp):
+            parts = [nnf(v, neg) for v in e.values]
+            is_and = isinstance(e.op, ast.And) != neg
+            return ("and" if is_and else "or", parts)
+        if isinstance(e, ast.Constant): return ("const", bool(e.value) != neg)
+        if isinstance(e, ast.Compare) and len(e.ops) == 1 and isinstance(e.comparators[0], ast.Constant) and e.comparators[0].value == 0:
+            x = ast.unparse(e.left).replace(" ", ""); op = type(e.ops[0])
+            pos = {ast.Gt: True, ast.NotEq: True, ast.LtE: False, ast.Eq: False}.get(op)
+            if pos is not None: return ("atom", x + ">0", pos != neg)
+        if isinstance(e, ast.Name): return ("atom", e.id + ">0", not neg)
+        return ("atom", ast.unparse(e).replace(" ", ""), not neg)
+    def conj(t):
+        if t[0] == "and":
+            out = set()
+            for p in t[1]: out |= conj(p)
+            return out
+        if t[0] == "atom" and t[2]: return {t[1]}
+        return set()
+    need = conj(nnf(wl.test))
+    for b in [n for n in ast.walk(wl) if isinstance(n, ast.Break) and next((a for a in ancestors(n) if isinstance(a, (ast.While, ast.For))), None) is wl]:
+        gs = [(g, pol) for g, pol in fi_.guards(b) if any(a is wl for a in ancestors(g))]
+        if not gs: continue
+        e = None
+        parts = [g if pol else ast.UnaryOp(op=ast.Not(), operand=g) for g, pol in gs]
+        e = parts[0] if len(parts) == 1 else ast.BoolOp(op=ast.And(), values=parts)
+        need |= conj(nnf(e, neg=True))          # the loop goes on only where the break's condition is false
+    return need
